@@ -5,7 +5,6 @@ package collections
 
 import (
 	"regexp"
-	"strings"
 
 	"github.com/corazawaf/coraza/v3/collection"
 	"github.com/corazawaf/coraza/v3/internal/corazarules"
@@ -58,10 +57,10 @@ func NewConcatKeyed(variable variables.RuleVariable, data ...collection.Keyed) *
 }
 
 func (c *ConcatKeyed) Get(key string) []string {
-	keyL := strings.ToLower(key)
 	var res []string
 	for _, c := range c.data {
-		res = append(res, c.Get(keyL)...)
+		// each member folds the key according to its own case sensitivity
+		res = append(res, c.Get(key)...)
 	}
 	return res
 }
